@@ -6,6 +6,11 @@ HERE = os.path.dirname(os.path.dirname(os.path.abspath(__file__)))
 
 # id -> (category, technique, level text, level note, design ref)
 CHECKS = {
+ "C04": ("exploration",
+         "property-based testing: round-trip (compile o compile fixpoint) over generated programs and the third-party corpus",
+         "For every generated program (typed generator over structs, enums, templates, overloads, statics, arrays, all statement and operator forms) and every one of the 31 third-party corpus entry points, the emitted DirectX HLSL is compiled again: it must be accepted, reproduce itself byte for byte and keep every binding. 4 000 generated programs quick, 100 000 thorough; failures are shrunk on the generator's choice sequence.",
+         "Programs rejected by the front end are skipped and counted. One recorded finding (KF-C04-1, template-call ambiguity of `a < b && c > (d)`) is suppressed by signature.",
+         "DESIGN.md section 3, C04"),
  "C06": ("exploration",
          "exhaustive enumeration + property-based testing against a reference allocator model",
          "Every sequence of up to 3 (quick) / 4 (thorough) global declarations over a 32-symbol alphabet (8 resource kind classes x array or not x explicit group or not) is compiled for DirectX, Vulkan, Vulkan with buffer addresses and Metal, in no-pipeline mode and with DefaultBindGroup 0 and 1; random sequences of 1-24 declarations cover the full alphabet (16 kinds, lengths 1-3, groups 0-2 in four spellings, default groups 0-2). The returned metadata must equal a reference bump allocator and, independently of the model, the slot ranges of each group must be disjoint and gap-free from zero. Exhaustive within the stated length; sampled beyond.",
